@@ -1,9 +1,9 @@
 package main
 
 import (
-	"encoding/binary"
 	"bufio"
 	"bytes"
+	"encoding/binary"
 	"fmt"
 	"strings"
 
@@ -11,17 +11,17 @@ import (
 )
 
 func init() {
-	generators["fw"] = genFW       // Writer sessions: option matrix x inputs x delivery (C02 C09 C14)
-	generators["fwck"] = genFWck     // checksum-bearing frames (C13): header with content size, block and content checksums
-	generators["frck"] = genFRck     // frames whose header / block / content checksum is wrong in one place (C13)
-	generators["fwlife"] = genFWLife // Writer lifecycle / misuse sequences (C17)
-	generators["fwfail"] = genFWFail // failing sinks (C15)
-	generators["fr"] = genFR       // Reader sessions over valid frames (C02 C16 C17)
-	generators["frmut"] = genFRMut // mutated frames (C05)
-	generators["frtrunc"] = genFRTrunc // truncations (C06)
+	generators["fw"] = genFW            // Writer sessions: option matrix x inputs x delivery (C02 C09 C14)
+	generators["fwck"] = genFWck        // checksum-bearing frames (C13): header with content size, block and content checksums
+	generators["frck"] = genFRck        // frames whose header / block / content checksum is wrong in one place (C13)
+	generators["fwlife"] = genFWLife    // Writer lifecycle / misuse sequences (C17)
+	generators["fwfail"] = genFWFail    // failing sinks (C15)
+	generators["fr"] = genFR            // Reader sessions over valid frames (C02 C16 C17)
+	generators["frmut"] = genFRMut      // mutated frames (C05)
+	generators["frtrunc"] = genFRTrunc  // truncations (C06)
 	generators["frhost"] = genFRHostile // hostile input (C07)
-	generators["frfail"] = genFRFail // failing / fragmenting sources (C15)
-	generators["conc"] = genConc     // concurrent pipelines under schedule perturbation (C08 C14)
+	generators["frfail"] = genFRFail    // failing / fragmenting sources (C15)
+	generators["conc"] = genConc        // concurrent pipelines under schedule perturbation (C08 C14)
 }
 
 var levels = []int{0, 0, 0, 512, 1024, 2048, 4096, 8192, 16384, 32768, 65536, 131072}
@@ -184,6 +184,11 @@ func genFWck(w *bufio.Writer, thorough bool, r *Rng) {
 		ops = append(ops, "c")
 		fmt.Fprintf(w, "W -1 %s\n", strings.Join(ops, " "))
 	}
+	// a concurrent Writer dropped with blocks in flight (no Close), then a second frame: its content checksum is its own
+	for i := 0; i < 8; i++ {
+		fmt.Fprintf(w, "W -1 A:bs=65536,bc=%d,cc=1,sz=0,lvl=0,conc=%d,leg=0 w:%s %sR:-1 w:%s c\n", r.Intn(2), r.Pick([]int{2, 4}),
+			dataTok(r, r.Pick([]int{200000, 300000}), 0), []string{"", "f "}[r.Intn(2)], dataTok(r, r.Pick([]int{100, 70000}), 0))
+	}
 	// a Write / Flush boundary right after a stripe that zeroes the four lanes of the content checksum
 	for i := 0; i < 12; i++ {
 		pre := r.Bytes(16 * r.Intn(4))
@@ -223,7 +228,7 @@ func genFRck(w *bufio.Writer, thorough bool, r *Rng) {
 		blk := r.Intn(nb)
 		if 4+3*blk+2 < len(fields) {
 			flip(fields[4+3*blk+1]+r.Intn(5), "badblkck") // payload
-			flip(fields[4+3*blk+2]+r.Intn(4), "badblkck")  // checksum word
+			flip(fields[4+3*blk+2]+r.Intn(4), "badblkck") // checksum word
 		}
 		flip(len(frame)-1-r.Intn(4), "badframeck")
 	}
@@ -368,6 +373,29 @@ func realFrame(content []byte, o wopts) []byte {
 	return out.Bytes()
 }
 
+// realFrameFlushed: the same content written as short chunks, each followed by Flush, then the rest
+func realFrameFlushed(content []byte, o wopts, r *Rng) []byte {
+	var out bytes.Buffer
+	zw := lz4.NewWriter(&out)
+	opts, _ := parseOptsGo(o.String())
+	if err := zw.Apply(opts...); err != nil {
+		panic(err)
+	}
+	p := 0
+	for k := 1 + r.Intn(3); k > 0 && p < len(content); k-- {
+		n := 1 + r.Intn(200)
+		if p+n > len(content) {
+			n = len(content) - p
+		}
+		_, _ = zw.Write(content[p : p+n])
+		_ = zw.Flush()
+		p += n
+	}
+	_, _ = zw.Write(content[p:])
+	_ = zw.Close()
+	return out.Bytes()
+}
+
 func readPattern(r *Rng, total int, bs int) []string {
 	var ops []string
 	switch r.Intn(5) {
@@ -422,6 +450,10 @@ func someFrames(r *Rng, n int, thorough bool) []builtFrame {
 			}
 			content := genContent(r.Intn(8), r.Intn(1000), sz)
 			bf.frame = realFrame(content, o)
+			if o.leg == 0 && sz > 300 && r.Intn(3) == 0 {
+				// written with Flushes after short chunks: small blocks followed by larger ones
+				bf.frame = realFrameFlushed(content, o, r)
+			}
 			bf.bs = o.bs
 			bf.legacy = o.leg == 1
 			if bf.legacy {
@@ -442,6 +474,7 @@ func someFrames(r *Rng, n int, thorough bool) []builtFrame {
 			if r.Intn(4) == 0 {
 				fo.skipFrames = 1 + r.Intn(2)
 			}
+			fo.varBlocks = r.Intn(3) == 0
 			sz := r.Pick([]int{0, 1, 50, 5000, 70000, 140000, 200000, 300000})
 			if fo.blockSize < 200 && sz > 5000 {
 				sz = 5000
@@ -502,6 +535,7 @@ func genFR(w *bufio.Writer, thorough bool, r *Rng) {
 		k = 60
 	}
 	reuseLines(w, r, k)
+	cumLines(w, r, 2*k)
 	// random call sequences over the whole Reader alphabet, on valid and damaged frames
 	ln := 300
 	if thorough {
@@ -648,6 +682,58 @@ func reuseLines(w *bufio.Writer, r *Rng, k int) {
 		// WriteTo fails on its destination with blocks in flight, then the Reader is reused
 		fmt.Fprintf(w, "R %d %s 0 -1 0 wt:%d R:%s wt:-1 r:5\n", r.Pick([]int{2, 4, 8}), a, r.Intn(3), b)
 		fmt.Fprintf(w, "R %d %s 0 -1 0 wt:%d R:%s r:%d r:5\n", r.Pick([]int{1, 2, 4}), b, r.Intn(2), a, alen+10)
+	}
+}
+
+// cumLines: regular frames in which the size word of a compressed block equals the number of bytes decoded
+// before it (the running count that recognises the legacy trailer must not matter outside legacy frames)
+func cumLines(w *bufio.Writer, r *Rng, k int) {
+	for i := 0; i < k; i++ {
+		c2 := genContent(r.Pick([]int{1, 3}), r.Intn(1000), 300+r.Intn(3000))
+		p2 := encodeBlock(c2, 0, len(c2), false, r)
+		if len(p2) >= len(c2) || len(p2) < 20 {
+			continue
+		}
+		c1 := r.Bytes(len(p2)) // decoded before block 2: exactly len(p2) bytes
+		c3 := r.Bytes(1 + r.Intn(50))
+		dep, bc, cc := r.Bool(), r.Bool(), r.Bool()
+		flg := byte(1 << 6)
+		if !dep {
+			flg |= 1 << 5
+		}
+		if bc {
+			flg |= 1 << 4
+		}
+		if cc {
+			flg |= 1 << 2
+		}
+		desc := []byte{flg, 4 << 4}
+		fr := append(le32b(0x184D2204), desc...)
+		fr = append(fr, byte(refXXH32(desc)>>8))
+		blk := func(payload []byte, raw bool) {
+			x := uint32(len(payload))
+			if raw {
+				x |= 1 << 31
+			}
+			fr = append(fr, le32b(x)...)
+			fr = append(fr, payload...)
+			if bc {
+				fr = append(fr, le32b(refXXH32(payload))...)
+			}
+		}
+		blk(c1, true)
+		blk(p2, false)
+		blk(c3, true)
+		fr = append(fr, 0, 0, 0, 0)
+		content := append(append(append([]byte{}, c1...), c2...), c3...)
+		if cc {
+			fr = append(fr, le32b(refXXH32(content))...)
+		}
+		ref, cref := saveBlob("cum", fr), saveBlob("cumc", content)
+		for _, conc := range []int{1, 4} {
+			ops := []string{"wt:-1", fmt.Sprintf("r:%d r:%d r:9", len(content)+10, len(content)+10), "r:50 r:7 r:100000 r:100000 r:9"}[r.Intn(3)]
+			fmt.Fprintf(w, "R %d %s 0 -1 0 %s E:%s\n", conc, ref, ops, cref)
+		}
 	}
 }
 
@@ -872,7 +958,7 @@ func genFRHostile(w *bufio.Writer, thorough bool, r *Rng) {
 		}
 	}
 	for _, m := range []uint32{0x184D2A4F, 0x184D2A50, 0x184D2A51, 0x184D2A5E, 0x184D2A5F, 0x184D2A60, 0x184D2A00, 0x184D2AFF, 0x184D2203, 0x184D2205, 0x184C2101, 0x184C2103} {
-		for _, skip := range []uint32{0, 3, 100, 0xFFFFFFFF} {
+		for _, skip := range []uint32{0, 3, 100, 0xFFFFFFFF, 0x80000000, 0x80000003, 0x80000010, 0x7FFFFFFF} {
 			b := append(le32b(m), le32b(skip)...)
 			b = append(b, 1, 2, 3)
 			b = append(b, valid...)
@@ -888,7 +974,8 @@ func genFRHostile(w *bufio.Writer, thorough bool, r *Rng) {
 		}
 	}
 	// long repetitions of a single field
-	reps := 20000
+	// (the harness caps goroutine stacks at 32 MiB: a parser that recursed once per field would die here)
+	reps := 300000
 	if thorough {
 		reps = 2000000
 	}
@@ -980,7 +1067,7 @@ func genFRFail(w *bufio.Writer, thorough bool, r *Rng) {
 		// the k-th source call fails
 		calls := 12
 		for k := 0; k < calls; k++ {
-			fmt.Fprintf(w, "R %d %s %d %d%s 0 %s X:injected P:%s\n", r.Pick([]int{1, 4}), bf.ref, r.Pick([]int{0, 4096}), k, []string{"", "~"}[r.Intn(2)],
+			fmt.Fprintf(w, "R %d %s %d %d%s 0 %s X:injected P:%s\n", r.Pick([]int{1, 4}), bf.ref, r.Pick([]int{0, 4096}), k, []string{"", "~", "^"}[r.Intn(3)],
 				[]string{"wt:-1", fmt.Sprintf("r:%d r:%d r:9", bf.clen+1, bf.clen+1)}[r.Intn(2)], bf.content)
 		}
 	}
@@ -1012,6 +1099,17 @@ func genConc(w *bufio.Writer, thorough bool, r *Rng) {
 				default:
 					ops = append(ops, "w:"+dataTok(r, r.Pick([]int{65536, 65537, 131072, 200000, 300000}), 0))
 				}
+			}
+			if fidx+1 < frames && r.Intn(4) == 0 {
+				// the frame is dropped with blocks in flight: Flush (or nothing), then Reset without Close
+				if r.Bool() {
+					ops = append(ops, "f")
+				}
+				ops = append(ops, "R:-1")
+				if r.Intn(3) == 0 {
+					ops = append(ops, "A:"+[]string{"leg=1,bc=1", "leg=1", "bc=1", "leg=0"}[r.Intn(4)])
+				}
+				continue
 			}
 			ops = append(ops, "c")
 			if r.Intn(4) == 0 {
